@@ -9,6 +9,9 @@ export CARGO_NET_OFFLINE=true
 meta="_seeded/meta.json"
 demo_cmd=$(python3 -c "import json;print(json.load(open('$meta'))['demo_cmd'])")
 demo_cmd=$(echo "$demo_cmd" | sed -E "s#cd +$wt +&& +##" | sed -E 's/ {2,}[(#].*$//')
+# the saved patch is the authority: reset the tracked files and apply it (worktrees share one git stash, and
+# agents have swapped their changes through it)
+git checkout -- . && git apply _seeded/patch.diff || { echo "$id: patch.diff does not apply to HEAD"; exit 2; }
 feat=""
 grep -q "storage" _seeded/patch.diff && feat="--features zarr,arrow,ndarray"
 demos=$(git ls-files --others --exclude-standard tests/ examples/ | tr '\n' ' ')
